@@ -3,7 +3,7 @@
    [ids id t] are the @ids defineIdRecursively gives to the typed nodes of a result whose tree of typed
    sub-nodes is t (trace entries, trace values, sub-results, locations ... to any depth). *)
 From ACV Require Import Base.Strs Model.Graph Model.Rules Model.Report Model.ReportRef Model.Engine.
-From ACV Require Import Proofs.ReportProofs Proofs.EngineProofs Extracted.ReportFacts.
+From ACV Require Import Proofs.ReportProofs Proofs.EngineProofs Proofs.ShapeProofs Model.Dnf Extracted.ReportFacts.
 
 Theorem C12_tie_id_scheme : define_id_formats = ref_define_id_formats /\ build_results_loops = ref_build_results_loops.
 Proof. vm_compute. split; reflexivity. Qed.
@@ -38,6 +38,19 @@ Proof. exact results_traced. Qed.
 Theorem C12_validate_ids_unique : forall g p c, NoDup (report_ids (validate g p c)).
 Proof. exact validate_ids_unique. Qed.
 
+(* the shapes error() / trace() build - any number of trace entries per result, any number of sub-results per
+   trace value, any depth, with or without location nodes - always meet the shape condition: for them id
+   uniqueness holds without hypothesis *)
+Theorem C12_result_shapes_wf : forall s, wf_et (tree_of_result s) = true.
+Proof. exact result_tree_wf. Qed.
+Theorem C12_result_ids_unique : forall s id, NoDup (ids id (tree_of_result s)).
+Proof. exact result_ids_unique. Qed.
+(* every branch the generator emits for a well-formed rule holds at least one constraint: every result has a
+   non-empty trace (one entry per constraint of its branch) *)
+Theorem C12_trace_nonempty : forall (A P : Type) fuel (r : rule A P) gs, okg r -> disp fuel r = Some gs ->
+  forall g, In g gs -> as_branch g <> [].
+Proof. exact branches_nonempty. Qed.
+
 Example C12_example :
   let t := ET [(TKey "location", ET [(TKey "range", ET [(TKey "start", ET []); (TKey "end", ET [])])]);
                (TIdx 0, ET [(TKey "traceValue", ET [(TIdx 0, ET [(TIdx 0, ET [])]); (TIdx 1, ET [])])]);
@@ -54,3 +67,6 @@ Print Assumptions C12_positional_ids_injective.
 Print Assumptions C12_ids_refuted_two_arrays.
 Print Assumptions C12_focus_grounded.
 Print Assumptions C12_validate_ids_unique.
+Print Assumptions C12_result_shapes_wf.
+Print Assumptions C12_result_ids_unique.
+Print Assumptions C12_trace_nonempty.
